@@ -135,6 +135,7 @@ struct Shared<'d, A> {
     visited: Vec<Mutex<HashMap<u128, u8>>>,
     stop: AtomicBool,
     capped: AtomicBool,
+    calls: AtomicU64,
     transitions: AtomicU64,
     checks: AtomicU64,
     accepted: AtomicU64,
@@ -174,6 +175,7 @@ impl Distinct {
 
 #[derive(Default)]
 struct Local {
+    calls: u64,
     transitions: u64,
     checks: u64,
     accepted: u64,
@@ -240,7 +242,9 @@ impl<'a, S: Scenario> Walker<'a, S> {
         count: bool,
     ) -> bool {
         let mut out = StepOut::default();
+        let calls0 = self.s.world(ctx).calls.get();
         self.s.step(ctx, m, a, &mut out);
+        self.local.calls += self.s.world(ctx).calls.get() - calls0;
         self.trail.push(out.accepted);
         if count {
             self.local.transitions += 1;
@@ -354,7 +358,9 @@ impl<'a, S: Scenario> Walker<'a, S> {
         let w = self.s.world(ctx);
         let snap = w.snap();
         let mut out = StepOut::default();
+        let calls0 = w.calls.get();
         self.s.probe(ctx, m, &mut out);
+        self.local.calls += w.calls.get() - calls0;
         w.restore(&snap);
         self.local.checks += out.checks;
         let mut cont = true;
@@ -388,6 +394,7 @@ impl<'a, S: Scenario> Walker<'a, S> {
 
     fn flush(&mut self) {
         let l = std::mem::take(&mut self.local);
+        self.sh.calls.fetch_add(l.calls, Ordering::Relaxed);
         self.sh.transitions.fetch_add(l.transitions, Ordering::Relaxed);
         self.sh.checks.fetch_add(l.checks, Ordering::Relaxed);
         self.sh.accepted.fetch_add(l.accepted, Ordering::Relaxed);
@@ -552,6 +559,7 @@ fn new_shared<A>(distinct: &Distinct, deadline: Instant, state_cap: u64) -> Shar
         visited: (0..SHARDS).map(|_| Mutex::new(HashMap::new())).collect(),
         stop: AtomicBool::new(false),
         capped: AtomicBool::new(false),
+        calls: AtomicU64::new(0),
         transitions: AtomicU64::new(0),
         checks: AtomicU64::new(0),
         accepted: AtomicU64::new(0),
@@ -674,6 +682,7 @@ pub fn run<S: Scenario>(s: &S, opts: &Opts) -> Outcome {
     }
 
     let deadline = t0 + std::time::Duration::from_secs_f64(opts.wall_cap_s);
+    let mut total_calls = 0u64;
     let mut total_transitions = 0u64;
     let mut total_checks = 0u64;
     let mut total_traces = 0u64;
@@ -725,6 +734,7 @@ pub fn run<S: Scenario>(s: &S, opts: &Opts) -> Outcome {
             .iter()
             .map(|m| m.lock().unwrap().values().filter(|r| **r == 0).count() as u64)
             .sum();
+        total_calls += sh.calls.load(Ordering::Relaxed);
         total_transitions += sh.transitions.load(Ordering::Relaxed);
         total_checks += sh.checks.load(Ordering::Relaxed);
         total_traces += sh.traces.load(Ordering::Relaxed);
@@ -845,14 +855,14 @@ pub fn run<S: Scenario>(s: &S, opts: &Opts) -> Outcome {
         .map(|(k, (a, r))| (k.to_string(), serde_json::json!({"accepted": a, "rejected": r})))
         .collect();
     let distinct_kinds: BTreeSet<&&str> = kinds_total.keys().collect();
-    let cov = serde_json::json!({
+    let mut cov = serde_json::json!({
         "states": union_states.max(1),
         "transitions": total_transitions.max(1),
-        "evaluations": total_transitions.max(1),
-        "distinct_nontrivial": distinct.transitions.load(Ordering::Relaxed),
-        "distinct_states_expanded": distinct.states.load(Ordering::Relaxed),
         "traces_validated_against_impl": total_traces,
+        "contract_invocations": total_calls,
         "model_vs_impl_comparisons": total_checks,
+        "distinct_states_expanded": distinct.states.load(Ordering::Relaxed),
+        "distinct_transitions": distinct.transitions.load(Ordering::Relaxed),
         "samples": samples,
         "exhaustive": exhaustive,
         "fixpoint": fixpoint,
@@ -870,6 +880,11 @@ pub fn run<S: Scenario>(s: &S, opts: &Opts) -> Outcome {
         "threads": opts.threads,
         "replay": replay_file,
     });
+    if opts.level == "exploration" {
+        // input-space sweeps: one case = one (base state, input) pair, each executed and compared once
+        cov["evaluations"] = serde_json::json!(total_transitions.max(1));
+        cov["distinct_nontrivial"] = serde_json::json!(distinct.transitions.load(Ordering::Relaxed));
+    }
     report::write_evidence(
         id,
         &opts.tier,
